@@ -136,7 +136,7 @@ func TestRefAgreement3(t *testing.T) {
 					if far {
 						w = 6
 					}
-					q[a] = cc[a] + rapid.Float64Range(-w, w).Draw(t, l)*hh[a]
+					q[a] = cc[a] + g.F(-w, w).Draw(t, l)*hh[a]
 				}
 			}
 			want, ok := b.Ref3(n, q)
@@ -209,7 +209,7 @@ func TestRefAgreement2(t *testing.T) {
 				if rapid.IntRange(0, 3).Draw(t, l+".k") == 0 {
 					q[a] = rapid.SampledFrom(pool).Draw(t, l+".pool")
 				} else {
-					q[a] = cc[a] + rapid.Float64Range(-1.5, 1.5).Draw(t, l)*hh[a]
+					q[a] = cc[a] + g.F(-1.5, 1.5).Draw(t, l)*hh[a]
 				}
 			}
 			want, ok := b.Ref2(n, q)
@@ -265,7 +265,7 @@ func drawAB(t *rapid.T, k float64) (float64, float64, string) {
 	case 2:
 		return a, a - k, "|a-b|=k"
 	case 3:
-		return a, a + rapid.Float64Range(-1, 1).Draw(t, "d")*k, "|a-b|<k"
+		return a, a + g.F(-1, 1).Draw(t, "d")*k, "|a-b|<k"
 	case 4:
 		return 0, val("b"), "a=0"
 	default:
@@ -362,9 +362,9 @@ func TestBlendShape(t *testing.T) {
 			j := rapid.IntRange(0, nk-1).Draw(t, fmt.Sprintf("op%d", i))
 			kb := b.S3[kids[j]].BoundingBox()
 			c, h := kb.Center(), kb.Size().MulScalar(0.5)
-			p := v3.Vec{X: c.X + rapid.Float64Range(-1, 1).Draw(t, fmt.Sprintf("x%d", i))*h.X,
-				Y: c.Y + rapid.Float64Range(-1, 1).Draw(t, fmt.Sprintf("y%d", i))*h.Y,
-				Z: c.Z + rapid.Float64Range(-1, 1).Draw(t, fmt.Sprintf("z%d", i))*h.Z}
+			p := v3.Vec{X: c.X + g.F(-1, 1).Draw(t, fmt.Sprintf("x%d", i))*h.X,
+				Y: c.Y + g.F(-1, 1).Draw(t, fmt.Sprintf("y%d", i))*h.Y,
+				Z: c.Z + g.F(-1, 1).Draw(t, fmt.Sprintf("z%d", i))*h.Z}
 			mn := math.Inf(1)
 			for _, kd := range kids {
 				mn = math.Min(mn, b.S3[kd].Evaluate(p))
@@ -409,7 +409,7 @@ func TestCacheHistory(t *testing.T) {
 		t.Repeat(map[string]func(*rapid.T){
 			"fresh": func(t *rapid.T) {
 				cc, h := bb.Center(), bb.Size()
-				p := v2.Vec{X: cc.X + rapid.Float64Range(-1, 1).Draw(t, "x")*h.X, Y: cc.Y + rapid.Float64Range(-1, 1).Draw(t, "y")*h.Y}
+				p := v2.Vec{X: cc.X + g.F(-1, 1).Draw(t, "x")*h.X, Y: cc.Y + g.F(-1, 1).Draw(t, "y")*h.Y}
 				hist = append(hist, p)
 			},
 			"repeat": func(t *rapid.T) {
@@ -423,7 +423,7 @@ func TestCacheHistory(t *testing.T) {
 				z := []float64{0, math.Copysign(0, -1)}
 				p := v2.Vec{X: rapid.SampledFrom(z).Draw(t, "x"), Y: rapid.SampledFrom(z).Draw(t, "y")}
 				if rapid.Bool().Draw(t, "offaxis") {
-					p.X = rapid.Float64Range(-1, 1).Draw(t, "xx") * S
+					p.X = g.F(-1, 1).Draw(t, "xx") * S
 				}
 				hist = append(hist, p)
 				zeros++
@@ -520,9 +520,9 @@ func TestVoxel(t *testing.T) {
 			return i - 1
 		}
 		for i := 0; i < 40; i++ {
-			p := v3.Vec{X: bb.Min.X + rapid.Float64Range(0.001, 0.999).Draw(t, fmt.Sprintf("x%d", i))*sz.X,
-				Y: bb.Min.Y + rapid.Float64Range(0.001, 0.999).Draw(t, fmt.Sprintf("y%d", i))*sz.Y,
-				Z: bb.Min.Z + rapid.Float64Range(0.001, 0.999).Draw(t, fmt.Sprintf("z%d", i))*sz.Z}
+			p := v3.Vec{X: bb.Min.X + g.F(0.001, 0.999).Draw(t, fmt.Sprintf("x%d", i))*sz.X,
+				Y: bb.Min.Y + g.F(0.001, 0.999).Draw(t, fmt.Sprintf("y%d", i))*sz.Y,
+				Z: bb.Min.Z + g.F(0.001, 0.999).Draw(t, fmt.Sprintf("z%d", i))*sz.Z}
 			ix, iy, iz := cell(xs, p.X), cell(ys, p.Y), cell(zs, p.Z)
 			if ix < 0 || iy < 0 || iz < 0 || ix+1 >= len(xs) || iy+1 >= len(ys) || iz+1 >= len(zs) {
 				continue
